@@ -10,7 +10,8 @@ SHARD = 60
 RULE = ('uamiv files (AVERAGE/EMISSIONS/INSTANT/AIRQUALITY; 1-3 species, nx,ny,nz 1-3, 1-3 hourly steps from any date 1970-2069 '
         'incl. day/year/leap/century roll-overs; payload = arbitrary finite binary32 bit patterns) encoded by the reference encoder '
         '(checked word-for-word against the Coq spec encoder), read by the library Memmap reader, re-written by the library writer and '
-        'decoded by the Coq reference decoder. Non-trivial = distinct content.')
+        'decoded by the Coq reference decoder. Non-trivial = distinct content. Lateral-boundary files (1-3 species, nx,ny 2-4, nz 1-3, 1-3 hourly '
+        'steps, same date logic) take the same path through constructor L; the other met formats are compared at record level (R).')
 TRUSTED = ['numpy structured-dtype memmap = fixed-size chunking (modelled by chunks/firstn/skipn)',
            'float32 payload words are moved, never computed on (compared as 32-bit patterns)',
            'py2coq translator semantics table (translate/py2coq.py)']
@@ -20,8 +21,13 @@ LEVEL_TEXT = ('Theorems (Props/C09.v): the reference decoder accepts exactly the
               'record-walking spec decoder recovers it from the spec encoding (uamiv dec_enc) and the library\'s stride-based Memmap reader model — '
               'built from the translated dtype literals and block-size expressions (tie T: coq/Gen/Camx.v regenerated from uamiv/Memmap.py, Write.py) — '
               'presents exactly the encoded content (mm_read_enc). Tie H: reference encoder == Coq enc on every case; library reader == mm_read; '
-              'library writer output decoded by the Coq decoder equals the content.')
-LEVEL_NOTE = ('Trusted: Coq kernel+vm_compute, py2coq, the harness. Other CAMx formats and bpch: record framing proved generically, layouts compared by '
+              'library writer output decoded by the Coq decoder equals the content. '
+              'LATERAL BOUNDARY files have the same depth (Model/Lbdy.v, Proofs/LbdyProofs.v): C09_lbdy_dec_enc, '
+              'C09_lbdy_reader_presents_content (reader model from the translated lateral_boundary/Memmap.py dtypes, edge-record checks and floor-division '
+              'block arithmetic; nested dtypes, numpy.memmap size rules and the projection dictionaries hand-modelled), C09_lbdy_writer_layout_mirrors_reader '
+              '(Write.py dtypes and pads against Memmap.py dtypes). Tie H for them: constructor L of Corr/C09.v (reference words == Coq lb_enc, reader model '
+              'predicts dims/names/data/TFLAG/ETFLAG, writer model predicts the bytes written, Coq decoder on the writer output).')
+LEVEL_NOTE = ('Trusted: Coq kernel+vm_compute, py2coq, the harness. CAMx met formats, landuse and bpch: record framing proved generically, layouts compared by '
               'correspondence only (see evidence distribution).')
 TECHNIQUE = 'Coq proof (codec round trip, framing soundness, reader-model refinement) + translation from source + differential correspondence'
 
@@ -151,7 +157,14 @@ def gen(rng, n, tier):  # noqa: F811
     out = _gen_uamiv_only(rng, (n * 2) // 3, tier)
     for i in range(n - len(out)):
         c = MC.gen_any(rng, tier=tier)
-        out.append(dict(kind='met-' + c['fmt'], content=c, write=True))
+        out.append(dict(kind='lbdy' if c['fmt'] == 'lateral_boundary' else 'met-' + c['fmt'], content=c, write=True))
+    # lateral-boundary files evaluated in Coq (Model/Lbdy.v): a dedicated stream on top of gen_any's share
+    for i in range(max(1, n // 8)):
+        c = M.gen_lb(rng, tier, rollover=0.5 if tier == 'search' else 0.3)
+        out.append(dict(kind='lbdy', content=c, write=True))
+        if i % 4 == 0:   # one-cell-wide grids (nx or ny = 1): in the model's domain on this path (edge records are copied)
+            c = M.gen_lb_thin(rng, tier)
+            out.append(dict(kind='lbdy-thin', content=c, write=True))
     return out
 
 
@@ -159,6 +172,8 @@ _impl_uamiv = impl
 
 
 def impl(case):  # noqa: F811
+    if MC.is_lb(case):
+        return MC.run_lb(case)
     if case['kind'].startswith('met-'):
         return MC.run_met(case)
     return _impl_uamiv(case)
@@ -168,6 +183,8 @@ _coq_uamiv = coq_term
 
 
 def coq_term(case, obs):  # noqa: F811
+    if MC.is_lb(case):
+        return None if 'raises' in obs else MC.lb_term_read(case, obs)
     if case['kind'].startswith('met-'):
         if 'raises' in obs:
             return None
@@ -182,6 +199,16 @@ _py_uamiv = py_check
 
 
 def py_check(case, obs):  # noqa: F811
+    if MC.is_lb(case):
+        if 'raises' in obs:
+            return dict(s_ok=False, why='harness/impl raised ' + str(obs))
+        why = MC.lb_py_check(case, obs)
+        mm = obs['mm']
+        if case.get('cut') is None and mm['status'] != 'ok':
+            why.append('library reader %s on a reference-encoded lateral_boundary file (%s)' % (mm['status'], mm.get('err')))
+        if case.get('cut') is None and mm['status'] == 'ok' and (obs.get('wr') or {}).get('status') != 'ok':
+            why.append('library writer %s (%s)' % ((obs.get('wr') or {}).get('status'), (obs.get('wr') or {}).get('err')))
+        return dict(s_ok=not why, region=0, why='; '.join(why[:3]))
     if not case['kind'].startswith('met-'):
         return _py_uamiv(case, obs)
     if 'raises' in obs:
@@ -203,6 +230,8 @@ _nt_uamiv = nontrivial
 
 
 def nontrivial(case, obs):  # noqa: F811
+    if MC.is_lb(case):
+        return obs.get('mm', {}).get('status') == 'ok' or case.get('cut') is not None
     if case['kind'].startswith('met-'):
         return obs.get('mm', {}).get('status') == 'ok'
     return _nt_uamiv(case, obs)
@@ -212,7 +241,7 @@ _shrink_uamiv = shrink
 
 
 def shrink(case):  # noqa: F811
-    if case['kind'].startswith('met-'):
+    if case['kind'].startswith('met-') or MC.is_lb(case):
         c = case['content']
         if len(c['steps']) > 1:
             yield dict(case, content=dict(c, steps=c['steps'][:-1]))
